@@ -851,3 +851,78 @@ fn c01_separator_name() {
 fn c01_name_4() {
     name_harness::<4, 13>();
 }
+
+// ---- binary mark line (7.5.2: comment with four bytes >= 128) -------------------------------------
+#[kani::proof]
+#[kani::unwind(7)]
+fn c03_binary_mark() {
+    let mark: [u8; 4] = kani::any();
+    let mut sink = ArrSink::<8>::new();
+    let r = Writer::write_binary_mark(&mut sink, &mark);
+    let all_high = mark[0] >= 128 && mark[1] >= 128 && mark[2] >= 128 && mark[3] >= 128;
+    if all_high {
+        assert!(r.is_ok());
+        let o = sink.out();
+        assert!(o.len() == 6 && o[0] == b'%' && o[1] == mark[0] && o[4] == mark[3] && o[5] == b'\n', "binary comment line malformed");
+    } else {
+        assert!(r.is_err() && sink.n == 0, "a mark with a byte < 128 must be rejected without output");
+    }
+    kani::cover!(all_high);
+    kani::cover!(!all_high);
+    std::mem::forget(r);
+}
+#[kani::proof]
+#[kani::unwind(7)]
+fn c01_hexstr_4() {
+    hexstr_harness::<4, 10>();
+}
+
+/// XrefSection::write_xref_section: header "first count" + EOL, then `count` 20-byte entries.
+#[kani::proof]
+#[kani::unwind(22)]
+fn c03_xref_section_header() {
+    let first: u16 = kani::any();
+    let two: bool = kani::any();
+    let mut sec = XrefSection::new(first as u32);
+    sec.add_entry(XrefEntry::Normal { offset: 17, generation: 0 });
+    sec.add_entry(XrefEntry::Free);
+    if !two {
+        // concrete shapes only: a second harness path would make the Vec shape symbolic
+    }
+    let mut sink = ArrSink::<64>::new();
+    let r = sec.write_xref_section(&mut sink);
+    assert!(r.is_ok());
+    let o = sink.out();
+    let mut pos = 0;
+    let f = read_uint(o, &mut pos);
+    assert!(f == Some(first as u32), "subsection header does not start with the first object number");
+    assert!(pos < o.len() && o[pos] == b' ');
+    pos += 1;
+    let c = read_uint(o, &mut pos);
+    assert!(c == Some(2), "subsection header does not give the number of entries");
+    assert!(pos < o.len() && o[pos] == b'\n');
+    pos += 1;
+    assert!(o.len() == pos + 40, "subsection must consist of the header line and count 20-byte entries");
+    assert!(o[pos + 17] == b'n' && o[pos + 37] == b'f');
+    kani::cover!(first > 9999);
+    std::mem::forget(r);
+    std::mem::forget(sec);
+}
+
+// one concrete subset per harness (small unwind): the looped variants above do not reach a verdict
+macro_rules! write_xref_one {
+    ($name:ident, $mask:expr) => {
+        #[kani::proof]
+        #[kani::unwind(12)]
+        fn $name() {
+            let lowdigit: u32 = kani::any();
+            kani::assume(lowdigit <= 9);
+            write_xref_case::<4, 5, 140>($mask, lowdigit);
+            kani::cover!(lowdigit == 9);
+        }
+    };
+}
+write_xref_one!(c03_write_xref_ids_1_4, 0b10010);
+write_xref_one!(c03_write_xref_ids_2, 0b00100);
+write_xref_one!(c03_write_xref_ids_1_2_3, 0b01110);
+write_xref_one!(c03_write_xref_ids_4, 0b10000);
